@@ -6,6 +6,7 @@ mod gen;
 mod html;
 mod mime;
 mod parse;
+mod sass;
 mod script;
 mod sub;
 mod util;
@@ -57,6 +58,7 @@ fn main() {
         "parse" => parse::run(&args),
         "html" => html::run(&args),
         "sub" => sub::run(&args),
+        "sass" => sass::run(&args),
         "mime" => mime::run(&args),
         "script" => script::run(&args),
         "runscript" => script::child(&a[2]),
